@@ -3,7 +3,7 @@ into coq/Gen/ImplTables.v and coq/Gen/ImplLevel.v.  Files are rewritten only whe
 import os
 
 HDR = ("(* GENERATED on every run by check.py from `h264v tables` (the real crate). Do not edit. *)\n"
-       "From Coq Require Import NArith List String.\nImport ListNotations.\nOpen Scope N_scope.\nOpen Scope string_scope.\n")
+       "From Coq Require Import NArith List String.\nImport ListNotations.\nLocal Open Scope N_scope.\nLocal Open Scope string_scope.\n")
 
 def b(x): return "true" if x == "1" else "false"
 
